@@ -644,6 +644,14 @@ class Interp:
                 b = self.bind_zip(tgt.elts[1], inner, env)
                 self.bind(tgt.elts[0], simp_top(BIN('Add', b, start)) if start != C(0) else b, env)
                 return b
+            if inner[0] == 'call' and inner[1] == S('islice') and len(inner[2]) == 2 and not (len(inner) > 3 and inner[3]):
+                # enumerate(islice(X, n), s): positions s .. s + min(n, len(X)) - 1, element X[position - s]
+                x, n_ = inner[2]
+                stop = simp_top(BIN('Add', CALL(S('min'), [n_, CALL(S('len'), [x])]), start)) if start != C(0) else CALL(S('min'), [n_, CALL(S('len'), [x])])
+                b = self.new_binder(CALL(S('range'), [start, stop]), tgt.elts[0].id if isinstance(tgt.elts[0], ast.Name) else 'r')
+                self.bind(tgt.elts[0], b, env)
+                self.bind(tgt.elts[1], self.load(I(x, self.lin_simplify(BIN('Sub', b, start)))), env)
+                return b
             h2 = tgt.elts[1].id if isinstance(tgt.elts[1], ast.Name) else 'it'
             b = self.new_binder(inner, h2)
             self.bind(tgt.elts[0], ('indexof', b) if start == C(0) else simp_top(BIN('Add', ('indexof', b), start)), env)
@@ -655,12 +663,46 @@ class Interp:
         self.bind(tgt, b, env)
         return b
 
+    @staticmethod
+    def lin_simplify(t):
+        """sums and differences with equal terms cancelled:  (len(X) - 1) - (len(X) - r)  ->  r - 1"""
+        from .canon import lin_parts, lin_build
+        atoms, c = lin_parts(t)
+        left = []
+        for s_, x in atoms:
+            if (-s_, x) in left:
+                left.remove((-s_, x))
+            else:
+                left.append((s_, x))
+        return lin_build(left, c)
+
+    def elem_at(self, seq, pos):
+        """element number pos (from 0) of an iterable given as a term"""
+        if seq[0] == 'call' and seq[1] == S('reversed') and len(seq[2]) == 1:
+            x = seq[2][0]
+            return self.load(I(x, self.lin_simplify(BIN('Sub', BIN('Sub', CALL(S('len'), [x]), C(1)), pos))))
+        if seq[0] == 'call' and seq[1] == S('islice') and len(seq[2]) == 2:
+            return self.load(I(seq[2][0], pos))
+        return self.load(I(seq, pos))
+
     def bind_zip(self, tgt, dom, env):
         """for a, b in zip(X, Y)  ==  for i in range(len(X)): a, b = X[i], Y[i]   (parallel lists of equal length)"""
         first = dom[2][0]
+        rng = [s_ for s_ in dom[2] if s_[0] == 'call' and s_[1] == S('range') and len(s_[2]) in (1, 2, 3) and not (len(s_) > 3 and s_[3])]
+        if rng and (len(rng[0][2]) < 3 or rng[0][2][2] in (C(1), C(-1))):
+            # one of the zipped sequences is a range: loop over THAT range, the others are read at the position it implies
+            # (zip stops at the shortest: the range is taken to be it, as it is when it is built from the length of the others)
+            r_ = rng[0]
+            b = self.new_binder(r_, 'zr')
+            start = C(0) if len(r_[2]) == 1 else r_[2][0]
+            down = len(r_[2]) == 3 and r_[2][2] == C(-1)
+            pos = self.lin_simplify(BIN('Sub', start, b) if down else BIN('Sub', b, start))
+            for e, seq in zip(tgt.elts, dom[2]):
+                self.bind(e, b if seq is r_ else self.elem_at(seq, pos), env)
+            return b
         b = self.new_binder(CALL(S('range'), [CALL(S('len'), [first])]), 'zi')
         for e, seq in zip(tgt.elts, dom[2]):
-            self.bind(e, self.load(I(seq, b)), env)
+            self.bind(e, self.elem_at(seq, b), env)
         return b
 
     def bind(self, tgt, val, env, fr=None):
